@@ -23,10 +23,30 @@ def c10_struct(tier="quick", seed=0):
     vm = ast.unparse(S.source().modules["microjs.vm"].tree)
     n_t, n_s = vm.count("except RegexTimeoutError:"), vm.count("except RegexStackOverflow:")
     out.append(ob("C10.struct.string-methods-convert-budgets", n_t == n_s and n_t >= 6, "K3", f"{n_t} RegexTimeoutError handlers, {n_s} RegexStackOverflow handlers at the matcher entry points of vm.py"))
+    # every backtracking loop of the regex VM (functions of RegexVM with a `while True` loop; look-around bodies
+    # included, whether they run on the shared loop or on loops of their own)
+    tree = S.module("microjs.regex.vm")
+    loops = []
+    for f in ast.walk(tree):
+        if isinstance(f, ast.FunctionDef) and any(isinstance(w, ast.While) and isinstance(w.test, ast.Constant) and w.test.value is True for w in ast.walk(f)):
+            loops.append(f)
+    def all_loops(pred):
+        return bool(loops) and all(pred(ast.unparse(f)) for f in loops)
+    import re as _re
+    names = [f.name for f in loops]
+    out.append(ob("C10.struct.step-budget", all_loops(lambda t: _re.search(r"(\w|\.)*step_count \+= 1", t) and "self.step_limit" in t), "K3",
+                  f"every matcher loop ({names}) counts every step against step_limit",
+                  witness="a catastrophic pattern inside a look-around, e.g. /(?=(a*)*b)/.test('aaaaaaaaaaaaaaaaaaaaaaaaaaaa')"))
+    out.append(ob("C10.struct.stack-budget", all_loops(lambda t: "self.stack_limit" in t and "raise RegexStackOverflow" in t), "K3",
+                  f"every matcher loop ({names}) bounds its backtrack stack by stack_limit"))
+    out.append(ob("C10.struct.poll", all_loops(lambda t: "self.poll_interval" in t and "self.poll_callback" in t and "raise RegexTimeoutError" in t), "K3",
+                  f"every matcher loop ({names}) polls the deadline callback"))
+    # the budget is per attempt and does not grow with the subject
     ex = ast.unparse(S.fn("microjs.regex.vm", "RegexVM._execute"))
-    out.append(ob("C10.struct.step-budget", "step_count += 1" in ex and "self.step_limit" in ex, "K3", "the main matcher loop counts every step against step_limit"))
-    out.append(ob("C10.struct.stack-budget", "self.stack_limit" in ex and "raise RegexStackOverflow" in ex, "K3", "the backtrack stack is bounded by stack_limit"))
-    out.append(ob("C10.struct.poll", "self.poll_interval" in ex and "self.poll_callback" in ex and "raise RegexTimeoutError" in ex, "K3", "the main matcher loop polls the deadline callback"))
+    lim = [n for f in loops for n in ast.walk(f) if isinstance(n, ast.Compare) and "step_limit" in ast.unparse(n)]
+    ok = bool(lim) and all(ast.unparse(c.comparators[0]) == "self.step_limit" for c in lim) and "self.step_limit =" not in ast.unparse(tree).replace("self.step_limit = step_limit", "")
+    out.append(ob("C10.struct.step-budget-constant", ok, "K3", "steps are compared with self.step_limit itself (no scaling by subject length or mode); step_limit is assigned in __init__ only",
+                  witness="/(a*)*b/y.test('a'.repeat(5000)) without a time limit"))
     return out
 
 
